@@ -14,12 +14,13 @@ DRIVER = "drv_C11"
 REQUIRED_THEOREMS = [
     "Acn.C11.prec_order", "Acn.C11.keyLt_by_kind", "Acn.C11.keyLt_strict_weak_order",
     "Acn.C11.heap_push", "Acn.C11.heap_pop", "Acn.C11.refinement", "Acn.C11.heap_invariant",
+    "Acn.C11.spec_instance_sound",
     "Acn.C11.getEvent_min", "Acn.C11.getEvent_error_iff", "Acn.C11.gets_sorted",
     "Acn.C11.heap_gets_sorted", "Acn.C11.getCurrent_spec", "Acn.C11.heap_getCurrent",
     "Acn.C11.len_empty_last", "Acn.C11.heap_len_empty_last", "Acn.C11.restore_equiv",
     "Acn.C11.restore_continue", "Acn.C11.wire_faithful",
 ]
-BUDGET = {"quick": 2500, "thorough": 60000, "search": 20000}
+BUDGET = {"quick": 2500, "thorough": 30000, "search": 20000}
 TRUSTED = [
     "CPython list.append/list.pop/indexing and tuple/int comparison (the heap ALGORITHM of heapq is "
     "transcribed and proved, not trusted; the C accelerator _heapq is assumed to be the algorithm of "
@@ -37,9 +38,10 @@ RULE = ("per case one EventQueue and 1-40 operations (add_event, add_events, get
         "that almost every comparison is a tie on the timestamp and many on the whole key; the same event object "
         "is sometimes added twice; streams: random interleaving, fill-then-drain, simulator-like "
         "(unplug/recompute scheduled after each plug-in), wide/negative timestamps; thorough tier adds ALL "
-        "sequences of length <= 5 over {add(ts,kind): 3x3, get_event, get_current(1), roundtrip} through the "
-        "whole pipeline and all sequences of length 6 over the same alphabet without roundtrip against the "
-        "oracle; non-trivial = a retrieval happened while >= 2 pending events shared the minimal timestamp, or "
+        "sequences of length <= 4 over {add(ts,kind): 3 timestamps x 3 kinds, get_event, get_current(1), "
+        "roundtrip} and all of length 5 without roundtrip (183 k sequences) through the whole pipeline "
+        "(implementation vs heap model incl. array layout, oracle), and all 262 k sequences of length 6 over "
+        "{add: 2 timestamps x 3 kinds, get_event, get_current(0)} against the oracle on the implementation; non-trivial = a retrieval happened while >= 2 pending events shared the minimal timestamp, or "
         "a round trip of a queue with >= 2 entries; distinct by hash of the case")
 
 KINDS = ["Unplug", "Plugin", "Recompute"]
@@ -134,6 +136,9 @@ def _gen_simlike(rng):
 ALPHA = ([("add", ts, k) for ts in (0, 1, 2) for k in KINDS] + [("get_event",), ("get_current", 1), ("roundtrip",)])
 
 
+DEEP = [("add", ts, k) for ts in (0, 1) for k in KINDS] + [("get_event",), ("get_current", 0)]
+
+
 def _alpha_case(word):
     ops = []
     for i, a in enumerate(word):
@@ -171,11 +176,13 @@ def corpus():
 def generate(rng, n, tier):
     out = []
     if tier == "thorough":
-        for L in range(1, 6):
+        for L in range(1, 5):
             for w in itertools.product(ALPHA, repeat=L):
                 out.append(_alpha_case(w))
-        # length 6 without round trip, oracle on the implementation only: one case per 2-letter prefix
-        for pre in itertools.product(range(len(ALPHA) - 1), repeat=2):
+        for w in itertools.product(ALPHA[:-1], repeat=5):      # a round trip costs 5 ms: not at length 5
+            out.append(_alpha_case(w))
+        # length 6, oracle on the implementation only: one case per 2-letter prefix
+        for pre in itertools.product(range(len(DEEP)), repeat=2):
             out.append({"deep": {"prefix": list(pre), "len": 6}})
     for i in range(n):
         r = i % 10
@@ -326,7 +333,7 @@ def run_impl(case):
 
 
 def _run_deep(d):
-    alpha = ALPHA[:-1]
+    alpha = DEEP
     n = 0
     fails = []
     ties = 0
